@@ -3,6 +3,7 @@ package main
 import (
 	"fmt"
 	"go/token"
+	"go/types"
 	"strings"
 
 	"golang.org/x/tools/go/ssa"
@@ -695,16 +696,45 @@ func checkT5(c *Ctx, jr *joinRoles) {
 						continue
 					}
 					l, rr := deepStrip(expand(cm.L, 0)), deepStrip(expand(cm.R, 0))
-					nonzero := func(x, y *Sym) bool { // x != 0 or 0 < x (or const <= x)
-						return (cm.Op == token.NEQ || cm.Op == token.LSS || cm.Op == token.LEQ) && (y.Op == "const")
+					// the edge says x != 0: `x != 0`, or `k < x` / `k <= x` with a constant bound on the
+					// left that excludes zero (an upper bound `x <= 100` says nothing about zero)
+					nonzero := func(x, y *Sym, xOnRight bool) bool {
+						k, isK := symConstInt(y)
+						if !isK {
+							return false
+						}
+						switch cm.Op {
+						case token.NEQ:
+							return k+cm.RC-cm.LC == 0 || k+cm.LC-cm.RC == 0
+						case token.LSS: // L + LC < R + RC
+							return xOnRight && k+cm.LC-cm.RC >= 0
+						case token.LEQ:
+							return xOnRight && k+cm.LC-cm.RC >= 1
+						}
+						return false
 					}
-					for _, pair := range [][2]*Sym{{l, rr}, {rr, l}} {
+					// inaccuracy <= 100 says the same as 100/inaccuracy != 0
+					if l.Op == "param" && rr.Op == "const" {
+						if k, isK := symConstInt(rr); isK {
+							tot := k + cm.RC - cm.LC
+							if (cm.Op == token.LEQ && tot == 100) || (cm.Op == token.LSS && tot == 101) {
+								haveDiv = true
+							}
+						}
+					}
+					for pi, pair := range [][2]*Sym{{l, rr}, {rr, l}} {
 						x, y := pair[0], pair[1]
-						if !nonzero(x, y) {
+						if !nonzero(x, y, pi == 1) {
 							continue
 						}
 						switch {
 						case x.Op == "param":
+							// the inaccuracy (an unsigned percentage), not the timeout
+							if par, isPar := x.V.(*ssa.Parameter); isPar {
+								if bt, isB := par.Type().Underlying().(*types.Basic); isB && bt.Info()&types.IsUnsigned == 0 {
+									continue
+								}
+							}
 							haveInacc = true
 						case x.Op == "bin" && x.Name == "/" && x.Args[1].Op == "param" && x.Args[0].Op == "const":
 							haveDiv = true
